@@ -169,6 +169,10 @@ def sync_harness_gosum():
         pass
 
 
+import threading
+_HARNESS_LOCK = threading.Lock()
+
+
 def harness_dir(ctx):
     """The harness module to build. Normally /verif/harness (replace => /repo). When
     VERIF_REPO points at another tree (testing a seeded change in a scratch worktree), a
@@ -176,11 +180,15 @@ def harness_dir(ctx):
     if os.path.realpath(REPO) == "/repo":
         return HARNESS
     d = os.path.join(ctx.scratch, "harness_copy")
-    if not os.path.exists(d):
-        shutil.copytree(HARNESS, d)
-        gm = open(os.path.join(d, "go.mod")).read()
-        gm = gm.replace("=> /repo", "=> " + os.path.realpath(REPO))
-        open(os.path.join(d, "go.mod"), "w").write(gm)
+    with _HARNESS_LOCK:     # checks build several harness commands from threads
+        if not os.path.exists(d):
+            tmp = d + ".tmp"
+            shutil.rmtree(tmp, ignore_errors=True)
+            shutil.copytree(HARNESS, tmp)
+            gm = open(os.path.join(tmp, "go.mod")).read()
+            gm = gm.replace("=> /repo", "=> " + os.path.realpath(REPO))
+            open(os.path.join(tmp, "go.mod"), "w").write(gm)
+            os.rename(tmp, d)
     return d
 
 
